@@ -153,16 +153,18 @@ Proof.
 Qed.
 
 (* PathSegmentsMut::extend outside finding F-C04-6 (file: URLs): for a non-file scheme type and '.'-free, '%'-free
-   segments the whole call is linear in the segments - 18 per character and 7 per segment *)
+   segments the whole call is linear in the segments - 20 per character (18 for parse_path, 2 for the skip test of
+   extend, which scans the tab / LF / CR-free text of the segment at most twice) and 7 per segment *)
 Definition total_len (segs : list (list N)) : N := fold_right (fun s a => nlen s + a) 0 segs.
 
 Theorem extend_linear_dotfree st ps segs : st_is_file st = false -> Forall usv_list segs -> Forall dotfree segs ->
-  forall s, snd (psm_extend_loop_c dbg st ps s segs) <= 18 * total_len segs + 7 * nlen (map nlen segs) + 1.
+  forall s, snd (psm_extend_loop_c dbg st ps s segs) <= 20 * total_len segs + 7 * nlen (map nlen segs) + 1.
 Proof.
   intros Hf. induction segs as [|seg rest IH]; intros Hu Hd s; cbn [psm_extend_loop_c]; [cbn; lia|].
   inversion Hu as [|? ? Hu1 Hur]; subst. inversion Hd as [|? ? Hd1 Hdr]; subst.
   cbn [map total_len fold_right]. fold (total_len rest). rewrite nlen_cons.
-  destruct (list_eqb seg [46] || list_eqb seg [46; 46]).
+  destruct (C04_Cost.psm_skips_c_spec seg) as [_ Hk]. destruct (psm_skips_c seg) as [skip k]. cbn [snd] in Hk.
+  destruct skip.
   - specialize (IH Hur Hdr s). destruct (psm_extend_loop_c dbg st ps s rest) as [o n]. cbn [snd] in *. lia.
   - set (s1 := if (ps + 1 <? nlen s) || (nlen s =? ps) then s ++ [47] else s).
     pose proof (parse_path_linear_dotfree_nofile CPathSegmentSetter st true ps s1 seg Hf Hu1 Hd1) as Hc.
@@ -172,17 +174,16 @@ Proof.
 Qed.
 End NoDD.
 
-(* why the condition is on the characters and not on the segment list: PathSegmentsMut::push(".<TAB>.") on http://h/a/b.
-   extend() skips exactly "." and ".." (documented), but ". TAB ." is not equal to ".."; the Input iterator then drops the
-   TAB, finish_segment sees "..", and the segment b is POPPED: the result is http://h/a/ (same in both configurations),
-   whereas push("..") leaves the URL alone.  Confirmed on the crate:
-     let mut u = Url::parse("http://h/a/b")?; u.path_segments_mut().unwrap().push(".\t."); assert_eq!(u.as_str(), "http://h/a/"); *)
+(* F-C06-7 (FIXED; found here as C04_push_tab_dotdot_witness): before the repair extend() skipped exactly the literal "."
+   and "..", ". TAB ." was handed to parse_path, whose Input iterator drops the TAB, finish_segment saw ".." and the
+   segment b of http://h/a/b was POPPED (http://h/a/).  extend() now makes its test on the tab / LF / CR-free text:
+   push(".<TAB>.") is skipped like push("..") - the URL is left alone in both configurations - although parse_path on
+   that text would still count a double dot (dd_count = 1): the segment no longer reaches it. *)
 Definition w_tab_url : url := mkUrl [104;116;116;112;58;47;47;104;47;97;47;98] 4 7 7 8 HI_Domain None 8 None None.
-Lemma push_tab_dotdot_witness :
-  path_segments_session true w_tab_url [PPush [46; 9; 46]]
-  = Some (mkUrl [104;116;116;112;58;47;47;104;47;97;47] 4 7 7 8 HI_Domain None 8 None None, SOk)
-  /\ path_segments_session false w_tab_url [PPush [46; 9; 46]]
-     = Some (mkUrl [104;116;116;112;58;47;47;104;47;97;47] 4 7 7 8 HI_Domain None 8 None None, SOk)
+Lemma push_tab_dotdot_fixed :
+  path_segments_session true w_tab_url [PPush [46; 9; 46]] = Some (w_tab_url, SOk)
+  /\ path_segments_session false w_tab_url [PPush [46; 9; 46]] = Some (w_tab_url, SOk)
   /\ path_segments_session true w_tab_url [PPush [46; 46]] = Some (w_tab_url, SOk)
+  /\ psm_skips_c [46; 9; 46] = (true, 6)
   /\ dd_count true CPathSegmentSetter STSpecialNotFile 8 [46; 9; 46] [104;116;116;112;58;47;47;104;47;97;47;98;47] 13 [] true = 1.
 Proof. vm_compute. repeat split; reflexivity. Qed.
